@@ -66,6 +66,19 @@ def downcast_func(target, expr):
     return f"{t_new}({s})"
 
 
+def minmax_func(name):
+    def func(target, expr):
+        x, y = expr.operands
+        s = f"{name}({target.tostring(x)}, {target.tostring(y)})"
+        if not x.get_type().is_same(y.get_type()):
+            # Python max/min return one of the operands as it is,
+            # hence cast to the type of the result:
+            s = f"{target.get_type(expr)}({s})"
+        return s
+
+    return func
+
+
 def list_func(target, expr):
     assert expr.kind == "list"
     s = ", ".join([target.tostring(item) for item in expr.operands])
@@ -135,8 +148,8 @@ kind_to_target = dict(
     bitwise_xor="({0}) ^ ({1})",
     bitwise_left_shift="({0}) << ({1})",
     bitwise_right_shift="({0}) >> ({1})",
-    maximum="max({0}, {1})",
-    minimum="min({0}, {1})",
+    maximum=minmax_func("max"),
+    minimum=minmax_func("min"),
     acos="numpy.arccos({0})",
     acosh="numpy.arccosh({0})",
     asin="numpy.arcsin({0})",
